@@ -6,7 +6,7 @@ LEVEL = 'exploration'
 RULE = ('case = (document term over text/concat/nest/group/line/softline/hardline/flat_choice/always_break/fill/'
         'align/hang/annotate with bare str children, width, ribbon fraction, strategy in {smart, fast}). Exhaustive: '
         'all terms with <= 4 nodes (quick) / <= 5 nodes (thorough) over leaves {a, bb, space, empty, line, soft, hard} '
-        'x width in {1..6, 10} x fraction in {1.0, 0.5, 0.1} x both strategies; random: Hypothesis terms up to 14 leaves, '
+        'x width in {1..6, 10} x fraction in {1.0, 0.5, 0.1} x both strategies, plus every term laid out a second time (same document object) after a layout with other settings; random: Hypothesis terms up to 14 leaves, '
         'width 1..40, fraction in (0, 1]. Oracle: back-tracking (memoised) matcher of the emitted SDoc stream against the '
         'reference denotational semantics (ppv/refsem.py); push/pop properly nested with identical annotation objects; '
         'default renderer output == stream text with only trailing spaces removed. non-trivial = term has a '
@@ -30,6 +30,10 @@ def enumerate_cases(tier):
             for f in FRACS:
                 for s in ('smart', 'fast'):
                     yield {'t': t, 'w': w, 'frac': f, 'strategy': s}
+        # the same document object laid out before with other settings (documents are values: a layout must not change them)
+        for w in (1, 3):
+            for s in ('smart', 'fast'):
+                yield {'t': t, 'w': w, 'frac': 1.0, 'strategy': s, 'pre': [[10, 1.0, 'fast' if s == 'smart' else 'smart']]}
 
 
 def fixed_cases():
@@ -49,6 +53,8 @@ def strategy(tier):
         'w': st.one_of(st.integers(1, 12), st.integers(1, 40)),
         'frac': st.one_of(st.sampled_from([1.0, 0.9, 0.5, 0.3, 0.1, 0.05]), st.integers(1, 100).map(lambda n: n / 100)),
         'strategy': st.sampled_from(['smart', 'fast']),
+        'pre': st.one_of(st.just([]), st.just([]), st.lists(st.tuples(st.integers(1, 40), st.sampled_from([1.0, 0.5, 0.1]),
+                                                                     st.sampled_from(['smart', 'fast'])).map(list), min_size=1, max_size=2)),
     })
 
 
@@ -58,6 +64,12 @@ def layout(case):
     doc, anns = docterm.build(case['t'])
     fn = L.layout_smart if case['strategy'] == 'smart' else L.layout_fast
     from .. import steps
+    for pw, pf, ps in case.get('pre') or []:
+        # earlier layouts of the very same document object (result discarded)
+        pfn = L.layout_smart if ps == 'smart' else L.layout_fast
+        _, exceeded = steps.guarded(lambda: list(pfn(doc, width=pw, ribbon_frac=pf)), cap=10 ** 6, cpu_seconds=5.0)
+        if exceeded:
+            raise NoTermination('layout did not finish within 10^6 package lines')
     # a layout of these small documents needs a few thousand package lines; a runaway one is re-decided by the meter
     stream, exceeded = steps.guarded(lambda: list(fn(doc, width=case['w'], ribbon_frac=case['frac'])), cap=10 ** 6, cpu_seconds=5.0)
     if exceeded:
@@ -100,7 +112,7 @@ def oracle(case):
     if len(rl) != len(ql) or any(not (q.startswith(r) and q[len(r):].strip(' ') == '') for r, q in zip(rl, ql)):
         return core.viol('renderer-changed-text', '%r vs stream text %r' % (rendered, raw))
     ks = docterm.kinds(t)
-    labels = [case['strategy']]
+    labels = [case['strategy']] + (['laid-out-before'] if case.get('pre') else [])
     broke = any(isinstance(x, sdoctypes.SLine) for x in stream)
     if broke:
         labels.append('has-linebreak')
